@@ -1339,6 +1339,40 @@ func (c *SpecCtx) evalCall(x *ast.CallExpr) (Val, types.Type) {
 	case "iref":
 		v, _ := c.eval(x.Args[0])
 		return IfRef(v.(*Term)), tInt
+	case "unchangedExcept":
+		// unchangedExcept("heap designator", ref): pre-existing objects other than the one
+		// ref points to keep their contents
+		lit, isLit := x.Args[0].(*ast.BasicLit)
+		if !isLit || c.old == nil {
+			panic(sperr("unchangedExcept(\"heaps\", ref) in a post-state"))
+		}
+		d, _ := strconv.Unquote(lit.Value)
+		rv, _ := c.eval(x.Args[1])
+		ref := c.e.term(rv)
+		if ref.S == SIface {
+			ref = IfRef(ref)
+		}
+		var cs []*Term
+		for _, part := range splitList(d) {
+			hm := map[string]Sort{}
+			c.e.addNamedHeap(part, &SpecCtx{e: c.e, pkg: c.pkg}, hm)
+			var names []string
+			for k := range hm {
+				names = append(names, k)
+			}
+			sortStrings(names)
+			for _, h := range names {
+				srt := hm[h]
+				y := BoundVar("y", SInt)
+				oldH := c.old.heap(h, srt)
+				if c.oldHeaps != nil {
+					oldH = c.oldHeaps(h, srt)
+				}
+				cur := c.heaps(h, srt)
+				cs = append(cs, Forall([]*Term{y}, Implies(And(Allocd(c.old.alloc, y), Neq(App("rroot", SInt, y), App("rroot", SInt, ref))), Eq(Select(cur, y), Select(oldH, y))), []*Term{Select(cur, y)}))
+			}
+		}
+		return And(cs...), tBool
 	case "unchanged":
 		if lit, isLit := x.Args[0].(*ast.BasicLit); isLit && lit.Kind == token.STRING {
 			// unchanged("heap designator"): objects that existed before keep their contents
